@@ -492,6 +492,8 @@ static char *field_dup (const char *tok)
 }
 
 /* BUILD <ctor:g|s> <arrays:i|f> T=.. F=.. S=.. path.. iface.. member.. errname.. dest.. sender.. rserial=.. sig=.. cinst.. body=[..] */
+static int apply_edit (DBusMessage *m, const char *a);
+
 /* GETDEL: read every header field back (which fills the header's field cache), then remove one field by setting it
  * to NULL, then read two fields again.  Returns 0 if the removal reports failure. */
 static int build_getdel (DBusMessage *m, const char *getdel)
@@ -516,7 +518,7 @@ static void cmd_build (int argc, char **argv)
 {
   int type = 0, flags = 0, i; unsigned serial = 0, rserial = 0;
   char *path = NULL, *iface = NULL, *member = NULL, *errname = NULL, *dest = NULL, *sender = NULL, *cinst = NULL;
-  const char *body = NULL, *fops = NULL, *getdel = NULL; DBusMessage *m, *copy; int specific, fixed;
+  const char *body = NULL, *fops = NULL, *getdel = NULL, *reset = NULL; DBusMessage *m, *copy; int specific, fixed;
   if (argc < 4) { ob_puts (&out, "ERR badargs"); return; }
   specific = argv[1][0] == 's'; fixed = argv[2][0] == 'f';
   for (i = 3; i < argc; i++)
@@ -526,6 +528,7 @@ static void cmd_build (int argc, char **argv)
       else if (!strncmp (a, "F=", 2)) flags = atoi (a + 2);
       else if (!strncmp (a, "FOPS=", 5)) fops = a + 5;
       else if (!strncmp (a, "GETDEL=", 7)) getdel = a + 7;
+      else if (!strncmp (a, "RESET=", 6)) reset = a + 6;
       else if (!strncmp (a, "S=", 2)) serial = (unsigned) strtoul (a + 2, NULL, 10);
       else if (!strncmp (a, "rserial=", 8)) rserial = (unsigned) strtoul (a + 8, NULL, 10);
       else if (!strncmp (a, "path", 4)) path = field_dup (a);
@@ -575,6 +578,16 @@ static void cmd_build (int argc, char **argv)
           if (q[1] == 'n') dbus_message_set_no_reply (m, on);
           else if (q[1] == 'a') dbus_message_set_auto_start (m, on);
           else if (q[1] == 'i') dbus_message_set_allow_interactive_authorization (m, on);
+        }
+    }
+  if (reset)
+    {
+      /* RESET=<field>:<hex>: a field that has already been set is set AGAIN to another value (through apply_edit's setters) */
+      char spec[600]; const char *colon = strchr (reset, ':');
+      if (colon && (size_t) (colon - reset) < 20)
+        {
+          snprintf (spec, sizeof spec, "%.*s=%s", (int) (colon - reset), reset, colon + 1);
+          if (apply_edit (m, spec) != 1) goto fail;
         }
     }
   if (serial) dbus_message_set_serial (m, serial);
